@@ -240,3 +240,136 @@ def container_obligation(kind):
 
 obligation('C13', 'C13-3a PendingTransactions::add (container): filed under the signer, nothing else moves')(container_obligation('pending'))
 obligation('C13', 'C13-3b ParkedTransactions::add (container): total pool limit respected, filed under the signer, nothing else moves')(container_obligation('parked'))
+
+
+# ----------------------------------------------------------------------------------------------------------------- C13-4
+from mirsym.engine import ok, err, some, none
+
+
+def maint_hooks(cfg):
+    """the two containers are oracles at their method boundary (their own behaviour is decided in C13-2/3); every transaction that leaves one is logged"""
+    R = re.compile
+
+    def h_addresses(ctx):
+        which = 'pending' if 'PendingTransactions ' in ctx.callee or 'PendingTransactions as' in ctx.callee else 'parked'
+        v = M.new_vec('Vec<[u8; 20]>', [cfg['addr']] if which == 'pending' else [])
+        it = Obj('Iter', kind='iter'); it.attrs['src'] = v; it.attrs['pos'] = 0; it.attrs['mode'] = 'ref'
+        return [(None, it)]
+
+    def h_clean(ctx):
+        which = 'pending' if 'PendingTransactions as' in ctx.callee else 'parked'
+        ids = cfg['stale_' + which]
+        v = M.new_vec('Vec<(TransactionId, RemovalReason)>', [mk_tuple(i) for i in ids])
+        ctx.st.log.append(('cleaned', which, tuple(ids)))
+        return [(None, v)]
+
+    def mk_tuple(i):
+        t = Obj('(TransactionId, RemovalReason)'); t.fields[(None, 0)] = i; r = Obj('RemovalReason'); r.attrs['tag'] = 'stale-or-expired'; t.fields[(None, 1)] = r
+        return t
+
+    def h_recost(ctx):
+        return [(None, M.thunk_future(lambda ex, s2, fut: [(None, ())]))]
+
+    def h_find(kind):
+        def h(ctx):
+            ctx.st.log.append(('took', kind, len(cfg[kind])))
+            return [(None, M.new_vec('Vec<TimemarkedTransaction>', list(cfg[kind])))]
+        return h
+
+    def h_add(ctx):
+        which = 'pending' if 'PendingTransactions as' in ctx.callee else 'parked'
+        t = ctx.ex.deref_val(ctx.st, ctx.args[1])
+        n = sum(1 for e in ctx.st.log if e[0] == 'add')
+        okv = z3.Bool(f'{which}_add_ok_{t.attrs["tag"]}')
+        ctx.st.log.append(('add', which, t.attrs['tag'], okv))
+        e = Obj('InsertionError'); e.discr = z3.BitVec(f'insertion_error_{n}', 64)
+        return [(okv, ok(())), (z3.Not(okv), (lambda s2: err(Obj('InsertionError', kind='error'))))]
+
+    def h_balances(ctx):
+        okv = z3.Bool('balances_available')
+        return [(None, M.thunk_future(lambda ex, s2, fut: [(okv, (lambda s3: ok(M.new_map('HashMap<IbcPrefixed, u128>', [(ASSET, z3.BitVec('balance', 128))])))), (z3.Not(okv), (lambda s3: err(Obj('eyre::Report', kind='error'))))]))]
+
+    def h_removal_add(ctx):
+        idv = ctx.ex.deref_val(ctx.st, ctx.args[1]); r = ctx.ex.deref_val(ctx.st, ctx.args[2])
+        ctx.st.log.append(('removal', idv, r.discr if isinstance(r, Obj) else None))
+        return [(None, ())]
+    unit = lambda ctx: [(None, ())]
+    return [(R(r'as TransactionsContainer<.*>>::addresses(::<.*>)?$'), h_addresses), (R(r'as TransactionsContainer<.*>>::clean_account_stale_expired$'), h_clean),
+            (R(r'as TransactionsContainer<.*>>::recost_transactions(::<.*>)?$'), h_recost), (R(r'^(mempool::transactions_container::)?PendingTransactions::find_demotables$'), h_find('demote')),
+            (R(r'^(mempool::transactions_container::)?ParkedTransactions::<.*>::find_promotables$'), h_find('promote')), (R(r'as TransactionsContainer<.*>>::add$'), h_add),
+            (R(r'^(mempool::)?get_account_balances(::<.*>)?$'), h_balances), (R(r'^(mempool::)?RemovalCache::add$'), h_removal_add),
+            (R(r'^(mempool::)?RecentExecutionResults::add$'), unit), (R(r'^(mempool::)?RecentExecutionResults::len$'), lambda ctx: [(None, z3.BitVec('results_len', 64))]),
+            (R(r'^(metrics::)?Metrics::\w+$'), unit), (R(r'PendingTransactions::subtract_contained_costs$'), lambda ctx: [(None, ctx.ex.deref_val(ctx.st, ctx.args[2]) if len(ctx.args) > 2 else Obj('HashMap'))]),
+            (R(r'PendingTransactions::pending_nonce$'), lambda ctx: [(None, none())]), (R(r'^(telemetry::display::)?base64'), lambda ctx: [(None, Obj('b64'))])]
+
+
+@obligation('C13', 'C13-4 run_maintenance accounting: a transaction that leaves ready/parked is re-filed, or it is untracked AND reported as removed with a reason')
+def c13_4(run):
+    from vlib.seqworld import initial_world
+    n_lost_checked = 0
+    for shape in ('demote1', 'demote2', 'promote1', 'promote2', 'stale'):
+        cfg = {'addr': z3.BitVec('account', 160), 'demote': [], 'promote': [], 'stale_pending': [], 'stale_parked': []}
+        ex, W = A.engine(extra_hooks=maint_hooks(cfg))
+        moved = []
+        k = 2 if shape.endswith('2') else 1
+        if shape.startswith('demote') or shape.startswith('promote'):
+            for j in range(k):
+                t, n, c, tid = mk_ttx(ex, f'm{j}')
+                moved.append((t, tid))
+            cfg['demote' if shape.startswith('demote') else 'promote'] = [t for t, _ in moved]
+        stale = [z3.BitVec('stale_id0', 256)] if shape == 'stale' else []
+        cfg['stale_pending'] = stale
+        others = [z3.BitVec('other_id', 256)]
+        ids = [tid for _, tid in moved] + stale + others
+        contained = M.new_map('HashSet<TransactionId>', [(i, ()) for i in ids])
+        inner = B.struct(ex, 'MempoolInner', pending=Obj('PendingTransactions', kind='opaque'), parked=Obj('ParkedTransactions', kind='opaque'), comet_bft_removal_cache=Obj('RemovalCache', kind='opaque'),
+                         recent_execution_results=Obj('RecentExecutionResults', kind='opaque'), contained_txs=contained, metrics=B.cell(Obj('Metrics', kind='opaque')))
+        cands = [n for n in ex.fns if n.endswith('::run_maintenance') and 'closure' not in n and ex.impl_self(n) == (None, 'MempoolInner')]
+        if len(cands) != 1:
+            raise Inconclusive(f'MempoolInner::run_maintenance not found: {cands}')
+        f = cands[0]
+        st = ex.start(f, [B.cell(inner), B.cell(Obj('S', kind='cell')), z3.Bool('recost'), M.new_map('HashMap<TransactionId, Arc<ExecTxResult>>', []), z3.BitVec('block_height', 64)], world=dict(initial_world()))
+        st.pc += [ids[a] != ids[b] for a in range(len(ids)) for b in range(a + 1, len(ids))]
+        for i, p in enumerate(run.explore(ex, st, poll=True, allow_havoc=(r'^Arguments::|fmt::',))):
+            lab = f'[{shape}, path {i}]'
+            if p.kind != 'return':
+                run.prove(f'no panic {lab}', p.pc, z3.BoolVal(False), detail=p.info); continue
+            post = B.fld(ex, p, ex.read(p, p.roots['args'][0].loc), 'contained_txs', 'HashSet')
+            post_ids = [k_ for k_, _ in post.attrs['items']]
+            removals = [e for e in p.log if e[0] == 'removal']
+            adds = {e[2]: e[3] for e in p.log if e[0] == 'add'}
+            took = any(e[0] == 'took' and e[2] > 0 for e in p.log)
+            run.sample({'shape': shape, 'path': i, 'adds': len(adds), 'removals': len(removals), 'tracked_after': len(post_ids)})
+            tracked = lambda x: z3.Or(*[x == y for y in post_ids]) if post_ids else z3.BoolVal(False)
+            reported = lambda x: z3.Or(*[x == e[1] for e in removals]) if removals else z3.BoolVal(False)
+            claim = []
+            for t, tid in moved:
+                tag = t.attrs['tag']
+                if tag in adds:
+                    n_lost_checked += 1
+                    claim.append(z3.If(adds[tag], z3.And(tracked(tid), z3.Not(reported(tid))), z3.And(z3.Not(tracked(tid)), reported(tid))))
+                else:
+                    claim.append(z3.BoolVal(not took))     # the account was skipped before anything was taken out
+                    claim.append(tracked(tid))
+            cleaned = any(e[0] == 'cleaned' for e in p.log)
+            for sid in stale:
+                claim.append(z3.If(z3.BoolVal(cleaned), z3.And(z3.Not(tracked(sid)), reported(sid)), tracked(sid)))
+            for o in others:
+                claim.append(z3.And(tracked(o), z3.Not(reported(o))))
+            run.prove(f'every transaction taken out of a container is re-filed and still tracked, or untracked and in the removal cache with a reason; untouched transactions stay tracked {lab}', p.pc, z3.And(*claim),
+                      replay=replay_demotion if shape.startswith('demote') else None)
+    if not n_lost_checked:
+        raise Inconclusive('vacuity: no re-filing step reached')
+    run.require_reached(*run.cur.reach)
+
+
+def replay_demotion(model, path):
+    """native replay in the shape of the counterexample: a demotion refused by a full parked pool"""
+    from vlib import replay
+    code = open('/verif/replay_templates/c13_maint.rs').read()
+    r = replay.run_crate_test('astria-sequencer', 'crates/astria-sequencer/src/mempool/mod.rs', code, 'verif_replay_c13')
+    if not r['lines']:
+        return {'mode': 'native-crate-test', 'reproduced': None, 'error': r['output'][-1500:]}
+    o = r['lines'][-1]
+    return {'mode': 'native-crate-test', 'scenario': 'parked pool limit 1 (held by another account), ready transaction loses its balance, run_maintenance', 'observed': o,
+            'reproduced': o['before'] == 'pending' and o['after'] == 'unknown'}
